@@ -53,6 +53,24 @@ SPECIALS = [
      'x = (2).real'),
     ('node.int_under_attribute', 'x = a.real', lambda f: f.body[0].value.value, lambda n: n.replace('2'), 'x = (2).real'),
     ('node.float_under_attribute', 'x = a.real', lambda f: f.body[0].value.value, lambda n: n.replace('2.5'), 'x = 2.5.real'),
+    # an annotated assignment target that has to be parenthesized as a whole when an inner value gets parentheses
+    ('annassign_target.attr_of_subscript.ml', 'a[b].c: int', lambda f: f.body[0].target.value.value,
+     lambda n: n.replace('x\n.y'), '((x\n.y)[b].c): int'),
+    ('annassign_target.attr_chain.ml', 'a[b].c.d: int = 1', lambda f: f.body[0].target.value.value.value,
+     lambda n: n.replace('x\n[y]'), '((x\n[y])[b].c.d): int = 1'),
+    ('annassign_target.subscript_of_subscript.ml', 'a[b][c]: int', lambda f: f.body[0].target.value.value,
+     lambda n: n.replace('x\n.y'), '((x\n.y)[b][c]): int'),
+    ('annassign_target.pars_true', 'a[b].c: int', lambda f: f.body[0].target.value.value,
+     lambda n: n.replace('(x)', pars=True), '((x)[b].c): int'),
+    # one expression coerced to a decorator through the slice interface: precedence AND line structure
+    ('decorator_slice.ml_binop', '@d\ndef f(): pass', lambda f: f.body[0],
+     lambda n: n.put_slice('x +\n y', 0, 1, 'decorator_list'), '@(x +\n y)\ndef f(): pass'),
+    ('decorator_slice.ml_attr', '@d\ndef f(): pass', lambda f: f.body[0],
+     lambda n: n.put_slice('x\n.y', 0, 1, 'decorator_list'), '@(x\n.y)\ndef f(): pass'),
+    ('decorator_slice.walrus', '@d\ndef f(): pass', lambda f: f.body[0],
+     lambda n: n.put_slice('x := y', 0, 1, 'decorator_list'), '@(x := y)\ndef f(): pass'),
+    ('decorator_slice.fst_ml', '@d\nclass C: pass', lambda f: f.body[0],
+     lambda n: n.put_slice(n.root.__class__('x +\n y'), 0, 1, 'decorator_list'), '@(x +\n y)\nclass C: pass'),
 ]
 
 
